@@ -232,15 +232,23 @@ impl StructParser {
                         match &segment.arguments {
                             syn::PathArguments::None => ident,
                             syn::PathArguments::AngleBracketed(args) => {
+                                // Lifetime and const arguments (Cow<'a, str>, Buf<4>) are not part
+                                // of the TypeScript type
                                 let generic_args: Vec<String> = args
                                     .args
                                     .iter()
-                                    .map(|arg| match arg {
-                                        syn::GenericArgument::Type(t) => Self::type_to_string(t),
-                                        _ => "unknown".to_string(),
+                                    .filter_map(|arg| match arg {
+                                        syn::GenericArgument::Type(t) => {
+                                            Some(Self::type_to_string(t))
+                                        }
+                                        _ => None,
                                     })
                                     .collect();
-                                format!("{}<{}>", ident, generic_args.join(", "))
+                                if generic_args.is_empty() {
+                                    ident
+                                } else {
+                                    format!("{}<{}>", ident, generic_args.join(", "))
+                                }
                             }
                             syn::PathArguments::Parenthesized(_) => ident, // Function types, not common in structs
                         }
